@@ -94,11 +94,13 @@ static void family( size_t nrandom )
         run_bs<N, bs_t, false>( b, 0, mixed( unsigned( N * 8 ), 32, 1 ));
         size_t off = rnd() % ( N * 8 );
         run_bs<N, bs_t, false>( b, off, partition( unsigned( N * 8 - off ), 32, 1, true ));
+        run_bs<N, bs_t, false>( b, off, mixed( unsigned( N * 8 - off ), 32, 1 ));        // a splitter started at an offset, walked up to and past the end
         run_bs<N, by_t, true>( b, 0, partition( unsigned( N * 8 ), 32, 8, false ));
         run_bs<N, by_t, true>( b, 0, partition( unsigned( N * 8 ), 32, 8, true ));
         run_bs<N, by_t, true>( b, 0, mixed( unsigned( N * 8 ), 32, 8 ));
         size_t boff = 8 * ( rnd() % N );
         run_bs<N, by_t, true>( b, boff, partition( unsigned( N * 8 - boff ), 32, 8, true ));
+        run_bs<N, by_t, true>( b, boff, mixed( unsigned( N * 8 - boff ), 32, 8 ));
     }
 }
 
